@@ -126,13 +126,20 @@ def gen_case(rng, tier):
             ops.append(['getvalue'])
         else:
             ops.append(['len'])
+    if rng.random() < 0.015:
+        # scale: more data than READ_CHUNK_SIZE / the temp file's buffer, multi-byte characters near the edges
+        big = rng.choice([21330, 21333, 21334, 30000, 43000])
+        filler = ('a' * (big - 3) + 'é—日') if text else (b'a' * big).hex()
+        ops = [['write', filler], ['write', _chunk(rng, text, 5)]] + ops[:12]
+        nops = len(ops)
     replicas = [{'max_size': 1 << 40, 'bufsize': 8192, 'roll_at': None},
                 {'max_size': 1, 'bufsize': rng.choice([1, 8, 64, 8192]), 'roll_at': None},
-                {'max_size': rng.randint(2, 40), 'bufsize': rng.choice([1, 8, 64, 8192]), 'roll_at': None},
+                {'max_size': rng.choice([rng.randint(2, 40), 21333, 21400, 50000]), 'bufsize': rng.choice([1, 8, 64, 8192]), 'roll_at': None},
                 {'max_size': 1 << 40, 'bufsize': rng.choice([1, 8, 64, 8192]),
                  'roll_at': rng.randint(0, nops), 'roll_how': rng.choice(['rollover', 'fileno'])}]
     return {'mode': 'text' if text else 'bytes', 'ops': ops, 'replicas': replicas,
-            'chunk': rng.choice([21333, 21333, 7, 3]), 'getvalue_every_step': rng.random() < 0.3}
+            'chunk': 21333 if nops and ops[0][0] == 'write' and len(ops[0][1]) > 20000 else rng.choice([21333, 21333, 7, 3]),
+            'getvalue_every_step': rng.random() < 0.3}
 
 
 def _gen_mfr(rng):
@@ -144,8 +151,10 @@ def _gen_mfr(rng):
     else:
         content_len = len(content)
     k = rng.randint(1, 5)
+    if rng.random() < 0.02:
+        k = rng.choice([300, 1100, 2500])              # scale: very many (mostly empty or tiny) members
     cuts = sorted(rng.randint(0, content_len) for _ in range(k - 1))
-    kinds = [rng.choice(['io', 'spooled', 'spooled-rolled']) for _ in range(k)]
+    kinds = [rng.choice(['io', 'spooled', 'spooled-rolled']) for _ in range(k)] if k <= 5 else ['io'] * k
     ops = []
     for _ in range(rng.randint(1, 10)):
         r = rng.random()
@@ -339,7 +348,7 @@ def _run_mfr(case):
     cuts = [min(c, len(content)) for c in case['cuts']]
     bounds = [0] + sorted(cuts) + [len(content)]
     parts = [content[a:b] for a, b in zip(bounds, bounds[1:])]
-    kinds = (case['kinds'] + ['io'] * len(parts))[:len(parts)]
+    kinds = (list(case['kinds']) + ['io'] * len(parts))[:len(parts)]
     fs = simfs.SimFS()
     sim = simfs.Sim(fs, simfs.Plan(), None)
     _install(sim, case.get('bufsize', 8192))
